@@ -792,6 +792,10 @@ func ruleC03LastWins(c *Checker) {
 		}
 	}
 	if matchCall == nil {
+		// the matcher written out in the loop: the compiled pattern is asked directly
+		matchCall = inlineRuleMatch(p)
+	}
+	if matchCall == nil {
 		c.fail(R, name, "rule loop", p.Pos(ex.Pos()), "no per-rule match call inside a loop found")
 		return
 	}
@@ -897,7 +901,11 @@ func ruleC03LastWins(c *Checker) {
 		}
 		c.check(subtree, R, name, "Dominating only for subtree rules", p.Pos(r.Pos()), "Dominating is reported only when the matching pattern ends in \"**\"", "a match by a pattern that does not cover everything below (dir/*, which also matches the probe \"dir/\") is reported as Dominating: the walks then skip the directory and files whose own path no rule excludes (dir/sub/file) are left out")
 		// the match result gates the update
-		mT, _ := boolEdges(ex, extractOf(matchCall, 0))
+		var matchRes ssa.Value = matchCall // the pattern's own answer where the matcher is written out
+		if _, isTuple := matchCall.Type().(*types.Tuple); isTuple {
+			matchRes = extractOf(matchCall, 0)
+		}
+		mT, _ := boolEdges(ex, matchRes)
 		c.check(len(mT) > 0, R, name, "update gated by match", p.Pos(matchCall.Pos()), "the result is updated only for matching rules", "the per-rule match result does not gate the update")
 	}
 }
@@ -1422,7 +1430,30 @@ func ruleC03MatchErr(c *Checker) {
 			c.check(isC && !b, R, p.FuncName(fn), fmt.Sprintf("error return %d answers false", i), p.Pos(r.Pos()), "(false, err)", "an error return answers true (or a computed value): a rule that cannot be evaluated then counts as matching")
 		}
 	}
-	_ = n
+	if n == 0 {
+		// no matcher function: the matcher is written out in the rule loop. Then a rule that cannot be
+		// compiled must not reach the question put to its pattern in the same iteration.
+		if mc := inlineRuleMatch(p); mc != nil {
+			fn := mc.Parent()
+			head := loopHeadOf(mc.Block())
+			for _, ci := range callsIn(fn) {
+				cl, ok := ci.(*ssa.Call)
+				if !ok || !inLoop(cl.Block()) || cl == mc || loopHeadOf(cl.Block()) != head {
+					continue
+				}
+				res := cl.Call.Signature().Results()
+				if res.Len() == 0 || !isErrorType(res.At(res.Len()-1).Type()) {
+					continue
+				}
+				_, errE := okEdgesOfCall(cl)
+				for i, e := range errE {
+					n++
+					reached := reachAvoiding(e.To(), map[*ssa.BasicBlock]bool{head: true})[mc.Block()]
+					c.check(!reached, R, p.FuncName(fn), fmt.Sprintf("failed preparation %d does not match", i), p.Pos(cl.Pos()), "the rule is skipped for this path", "a rule that could not be prepared is still asked (or counted) in the same iteration")
+				}
+			}
+		}
+	}
 }
 
 // bundleWalkSet: the bundle preparation walk callbacks, as a set (they remove instead of pruning).
@@ -1430,6 +1461,26 @@ func bundleWalkSet(p *Prog) map[*ssa.Function][]int {
 	out := map[*ssa.Function][]int{}
 	for _, f := range bundleWalks(p) {
 		out[f] = []int{1}
+	}
+	return out
+}
+
+// inlineRuleMatch: when the ignore-file package has no (bool, error) matcher function, the call of
+// (*regexp.Regexp).MatchString inside the rule loop of Ruleset.Excludes.
+func inlineRuleMatch(p *Prog) *ssa.Call {
+	ex := p.Fn("ignorefiles", "Ruleset.Excludes")
+	if ex == nil {
+		return nil
+	}
+	var out *ssa.Call
+	for _, ci := range callsIn(ex) {
+		cl, ok := ci.(*ssa.Call)
+		if ok && inLoop(cl.Block()) && isMethod(calleeObj(cl), "regexp", "Regexp", "MatchString") {
+			if out != nil {
+				return nil // more than one question per rule: not the plain written-out matcher
+			}
+			out = cl
+		}
 	}
 	return out
 }
